@@ -58,7 +58,8 @@ if use_wt:
     sh(f'git -C /repo worktree add -q --detach {cwt} HEAD')
     a = sh(f'git -C {cwt} apply {patch}')
     assert a.returncode == 0, a.stderr
-    env = dict(os.environ, VERIF_REPO=cwt)
+    evd = f'/tmp/ev-check-{os.getpid()}'
+    env = dict(os.environ, VERIF_REPO=cwt, VERIF_EVIDENCE_DIR=evd)
 else:
     assert sh('git -C /repo status --porcelain').stdout.strip() == '', '/repo not clean'
     a = sh(f'git -C /repo apply {patch}')
@@ -75,11 +76,12 @@ finally:
     if use_wt:
         sh(f'git -C /repo worktree remove --force {cwt}')
         shutil.rmtree(cwt, ignore_errors=True)
+        shutil.rmtree(evd, ignore_errors=True)
     else:
         sh('git -C /repo checkout -- .')
-    # evidence files were rewritten by the run on the patched tree: restore the committed ones
-    sh('git checkout -- evidence', cwd=VERIF)
-    shutil.rmtree(os.path.join(VERIF, 'evidence', 'replays'), ignore_errors=True)
+        # evidence files were rewritten by the run on the patched tree: restore the committed ones
+        sh('git checkout -- evidence', cwd=VERIF)
+        shutil.rmtree(os.path.join(VERIF, 'evidence', 'replays'), ignore_errors=True)
 if not use_wt:
     assert sh('git -C /repo status --porcelain').stdout.strip() == ''
 
